@@ -40,6 +40,10 @@ func (s *segmentTimelineGenerator) addSegmentData(log *slog.Logger, item recSegD
 	trName := item.name
 	if _, ok := s.segDataBuffers[trName]; !ok {
 		s.segDataBuffers[trName] = newSegDataBuffer(s.windowSize)
+		if s._started {
+			// A track joining after start must also have a number before it counts as complete
+			s._nrTracks = uint32(len(s.segDataBuffers))
+		}
 	}
 	err = s.segDataBuffers[trName].add(item)
 	if err != nil {
